@@ -20,7 +20,8 @@ import (
 
 // Defects repaired in /repo (their exclusions / tolerances are switched off; the replays are regression cases):
 // 1 updateTSIDsForPrefix skipped the deleted filter, 5 pooled index searches kept a foreign deleted set,
-// 7 tag-filter cache not invalidated by DROP SERIES (class late-drop: a wrong read right after a drop fails at once).
+// 7 tag-filter cache not invalidated by DROP SERIES (a wrong read right after an acknowledged DROP SERIES fails at once;
+// the other drops are two-phase - marked, then removed by a 500 ms loop - and keep the 30 s grace, class late-drop).
 const (
 	fixedDefect1 = true
 	fixedDefect5 = true
@@ -332,7 +333,10 @@ func (s *S) drop(d *Drop) {
 		s.fail("%s failed: %s", q, e)
 	}
 	s.drops++
-	s.lastEvent = "drop"
+	s.lastEvent = "drop" // DROP MEASUREMENT / RETENTION POLICY / DATABASE: marked in the catalogue, removed by a 500 ms loop
+	if d.Kind == "series" {
+		s.lastEvent = "drop-series"
+	}
 	forget := func(nsName string, keys []string) {
 		for _, k := range keys {
 			sk := nsName + "|" + k
@@ -357,6 +361,11 @@ func (s *S) drop(d *Drop) {
 			if s.unflushed[d.NS+"|"+k] {
 				s.walHoldsDropped = true
 			}
+		}
+		if len(dropped) == 0 {
+			// nothing selected: the server does nothing (no cache invalidation either), so a tag filter cached before a
+			// recent write may still lack the new series for some seconds - that is class late-write, not a drop matter
+			s.lastEvent = "drop-series-none"
 		}
 		if len(dropped) > 0 {
 			s.dropUnsettled = true
@@ -580,7 +589,7 @@ func (s *S) check(reads []ReadSpec, when string, strict bool) {
 		s.alive("during a read")
 		first := d
 		t0 := time.Now()
-		if strict || (fixedDefect7 && s.lastEvent == "drop") {
+		if strict || (fixedDefect7 && s.lastEvent == "drop-series") {
 			s.fail("%s: read %q differs from the model with the drops applied (no grace period: strict check or right after an acknowledged drop): %s%s", when, r.SQL(n), first, s.agreement(reads, i))
 		}
 		for d != "" {
